@@ -433,6 +433,28 @@ func c10Follow(run *vfRun, c c10Case) {
 				ok = true
 			}
 		case <-time.After(1500 * time.Millisecond):
+			// not back yet: let (fake) time pass — a sync may give up on a silent peer after some periods
+			for k := 0; k < 40; k++ {
+				clk.Advance(nt.cfg.Period*2 + time.Second)
+				select {
+				case err := <-done:
+					done <- err
+					k = 99
+				case <-time.After(100 * time.Millisecond):
+				}
+			}
+			select {
+			case err := <-done:
+				tap.mu.Lock()
+				h := tap.head
+				tap.mu.Unlock()
+				if err == nil && h >= c.Target {
+					ok = true
+				}
+				scancel()
+				continue
+			default:
+			}
 			// parked: on what?
 			dump := vfGoroutineDump()
 			if strings.Contains(dump, "(*SyncManager).tryNode") {
@@ -594,7 +616,20 @@ func c10Repair(run *vfRun, c c10Case) {
 	parked := false
 	select {
 	case <-done:
-	case <-time.After(4 * time.Second):
+	case <-time.After(1500 * time.Millisecond):
+		// let (fake) time pass: a re-sync may give up on a silent peer after some periods and move on
+		back := false
+		for k := 0; k < 150 && !back; k++ { // each silent peer met costs the sync `factor` periods of (fake) time
+			clk.Advance(nt.cfg.Period*2 + time.Second)
+			select {
+			case <-done:
+				back = true
+			case <-time.After(100 * time.Millisecond):
+			}
+		}
+		if back {
+			break
+		}
 		if strings.Contains(vfGoroutineDump(), "(*SyncManager).tryNode") {
 			parked = true
 		}
